@@ -44,7 +44,7 @@ RULE = ("exhaustive: every text over {a . space \\n ( )} (and over {B _ tab [ ] 
         "non-trivial when the text is non-empty (cache cases: more than one op)")
 EXHAUSTIVE = True
 EXHAUSTIVE_SCOPE = {"quick": "alphabet {a . space \\n ( )} len<=4 and {B _ tab [ ] wide} len<=3, all cursors, all query families",
-                    "thorough": "alphabet {a . space \\n ( )} len<=5, {B _ tab [ ] wide} len<=5, {a space \\n (} len=6, "
+                    "thorough": "alphabet {a . space \\n ( )} len<=5, {B _ tab [ ] wide} len<=4, {a space \\n (} len=6 (reduced query set), "
                                 "all cursors, all query families"}
 TRUSTED = ["harness/c02.py compares every query result field by field",
            "Ptk/Model/C02.lean is a hand translation of document.py (correspondence-checked)",
@@ -778,9 +778,9 @@ def cases(tier, rng):
         yield from exhaustive(ALPHA2, range(1, 4), NEEDLES_2, (("[", "]"),))
     else:
         yield from exhaustive(ALPHA, range(0, 6), NEEDLES_X, (("(", ")"),))
-        yield from exhaustive(ALPHA2, range(1, 6), NEEDLES_2, (("[", "]"),))
+        yield from exhaustive(ALPHA2, range(1, 5), NEEDLES_2, (("[", "]"),))
         yield from exhaustive(ALPHA3, range(6, 7), ["a", "a "], (("(", ")"),), counts_w=(-1, 1, 2))
-    nrand = 1500 if tier == "quick" else 30000
+    nrand = 1500 if tier == "quick" else 20000
     for _ in range(nrand):
         n = rng.choice([0, 1, 2, 3, 5, 8, 13, 21, 34, 60])
         text = rand_text(rng, n)
